@@ -75,6 +75,9 @@ def job_radiogenic():
             elif kind == 'half':
                 r = replay.call_real([call(tv + H[0], mv, [0]), call(tv, mv, [0])])
                 a, b = r[0]['value'], 0.5 * r[1]['value']
+            elif kind == 'positive':
+                r = replay.call_real([call(tv, mv, [0, 1, 2])])
+                return not (r[0]['value'] > 0), 'isotope heating = %r for positive inputs' % r[0]['value']
             elif kind == 'ref':
                 r = replay.call_real([call(tr, mv, [0, 1])])
                 a, b = r[0]['value'], mv * sum(F[i] * C[i] * Qh[i] for i in (0, 1))
@@ -98,7 +101,7 @@ def job_radiogenic():
     exp_product_axiom(e2, e1, eh, x2, x1, LN)
     CTX.axiom(eq_goal(eh, Q(Fr(1, 2))), 'exp(LOG_HALF) = 1/2 (LOG_HALF = np.log(0.5) in the source)')
     results.append(discharge(Obligation('isotope: a single isotope halves after one half-life', eq_goal(later, one * Fr(1, 2)), pos, replay=rp_iso('half'), key='iso:half')))
-    results.append(discharge(Obligation('isotope: heating > 0 for positive inputs', (whole > 0).c, pos, replay=lambda md: (True, 'non-positive radiogenic heating'), key='iso:positive')))
+    results.append(discharge(Obligation('isotope: heating > 0 for positive inputs', (whole > 0).c, pos, replay=rp_iso('positive'), key='iso:positive')))
     fx = fns['fixed']
     P, hl = Q.sym('P'), Q.sym('hl')
     pos2 = pos + [P.re > 0, hl.re > 0]
@@ -116,7 +119,7 @@ def job_radiogenic():
         return bad, 'fixed(t)=%r fixed(t+hl)=%r fixed(t_ref)=%r mass*P=%r' % (a, b, c_, mv * Pv)
     results.append(discharge(Obligation('fixed: halves after one average half-life, equals mass*production at t_ref, linear in mass',
                                         z3.And(eq_goal(a2, a1 * Fr(1, 2)), eq_goal(fx(tref, m, P, hl, tref), m * P), eq_goal(fx(t, k * m, P, hl, tref), k * a1)), pos2, replay=rp_fixed, key='fixed')))
-    results.append(discharge(Obligation('off: zero heating', eq_goal(fns['off'](t, m), Q(0)), pos, replay=lambda md: (True, 'off model returns non-zero'), key='off')))
+    results.append(discharge(Obligation('off: zero heating', eq_goal(fns['off'](t, m), Q(0)), pos, replay=replay.fn_replay(mod, 'off', [('t', 3000.), ('mass', 1e22)], lambda val, a: val != 0, 'radiogenic off'), key='off')))
     results.append(reach_twin('radiogenic', pos2))
     return {'results': results, 'encoded': loader.ENCODED, 'axioms': CTX.axiom_notes, 'label': 'radiogenic'}
 
@@ -166,6 +169,9 @@ def job_cooling(region1, region2):
                 return d1 <= d2 and a > b * (1 + tol), 'flux(dT=%r)=%r > flux(dT=%r)=%r (L=%r)' % (d1, a, d2, b, p['L'])
             if kind == 'eta':
                 return e1 <= e2 and c_ > a * (1 + tol), 'flux(eta=%r)=%r < flux(eta=%r)=%r' % (e1, a, e2, c_)
+            if kind == 'cond_mono':
+                r2 = replay.call1(mod, 'conduction', d2, p['k'], p['L'])
+                return (not cd > 0) or (d1 <= d2 and r2['value'][0] < cd * (1 - tol)), 'conduction flux(dT=%r)=%r, flux(dT=%r)=%r' % (d1, cd, d2, r2['value'][0])
             if kind == 'cond':
                 return a < cd * (1 - tol), 'convection %r < conduction %r at dT=%r L=%r' % (a, cd, d1, p['L'])
         return r_
@@ -176,7 +182,7 @@ def job_cooling(region1, region2):
         results.append(discharge(Obligation('convection %s: carries at least the conductive flux of the same layer' % tag, (f1[0] >= cond1[0]).c, A + ([(L >= 1).c] if region1 == 'cold' else []),
                                             replay=rp('cond'), key='conv:cond:%s' % region1)))
         results.append(discharge(Obligation('conduction: flux > 0 and non-decreasing in dT', z3.And((cond1[0] > 0).c, (fns['conduction'](dT2, shared['k'], L)[0] >= cond1[0]).c), A + [(dT1 <= dT2).c],
-                                            replay=lambda md: (True, 'conduction not monotone'), key='cond:mono')))
+                                            replay=rp('cond_mono'), key='cond:mono')))
     results.append(discharge(Obligation('convection %s: non-decreasing in the temperature contrast (dT1 <= dT2, dT1 in %s region, dT2 in %s region)' % (tag, region1, region2),
                                         (f1[0] <= f2[0]).c, A + [(dT1 <= dT2).c], replay=rp('dT'), key='conv:dT:%s/%s' % (region1, region2))))
     results.append(reach_twin('cooling ' + tag, A + [(dT1 <= dT2).c]))
@@ -200,25 +206,27 @@ def job_viscosity():
             if t1 > t2:
                 t1, t2 = t2, t1
             Pv, Ev, Vv = fv(md, 'P', 1e9), fv(md, 'E', 3e5), fv(md, 'V', 1e-6)
-            if which == 'arrhenius':
+            if which in ('arrhenius', 'arrhenius_pos'):
                 mk = lambda T: {'module': mod, 'func': 'arrhenius', 'args': [T, Pv, fv(md, 'A', 1e9), False, fv(md, 'stress', 1.), fv(md, 'n_expo', 1.), fv(md, 'grain', 1e-3), fv(md, 'p_expo', 2.), Ev, Vv]}
             else:
                 mk = lambda T: {'module': mod, 'func': 'reference', 'args': [T, Pv, fv(md, 'eta_ref', 1e20), fv(md, 'T_ref', 1500.), Ev, Vv]}
             r = replay.call_real([mk(t1), mk(t2)])
             a, b = r[0]['value'], r[1]['value']
+            if which == 'arrhenius_pos':
+                return not (a > 0), 'arrhenius viscosity(T=%r) = %r' % (t1, a)
             return b > a * (1 + 1e-12), '%s viscosity(T=%r)=%r < viscosity(T=%r)=%r' % (which, t1, a, t2, b)
         return r_
     v1 = fns['arrhenius'](T1, P, A_, False, s, n_, d, p_, E, V)
     v2 = fns['arrhenius'](T2, P, A_, False, s, n_, d, p_, E, V)
     results.append(discharge(Obligation('arrhenius (no extra T factor): viscosity non-increasing in temperature, including across the exponent clamps', (v2 <= v1).c, pos, replay=rp('arrhenius'),
                                         key='visc:arrhenius')))
-    results.append(discharge(Obligation('arrhenius: viscosity > 0', (v1 > 0).c, pos, replay=lambda md: (True, 'non-positive viscosity'), key='visc:arrhenius:pos')))
+    results.append(discharge(Obligation('arrhenius: viscosity > 0', (v1 > 0).c, pos, replay=rp('arrhenius_pos'), key='visc:arrhenius:pos')))
     r1 = fns['reference'](T1, P, eta0, Tref, E, V)
     r2 = fns['reference'](T2, P, eta0, Tref, E, V)
     results.append(discharge(Obligation('reference: viscosity non-increasing in temperature, including across the exponent clamps', (r2 <= r1).c, pos, replay=rp('reference'), key='visc:reference')))
     results.append(discharge(Obligation('reference: viscosity(T_ref) == reference viscosity', eq_goal(fns['reference'](Tref, P, eta0, Tref, E, V), eta0), pos,
-                                        replay=lambda md: (True, 'reference law does not return eta_ref at T_ref'), key='visc:reference:ref')))
-    results.append(discharge(Obligation('constant: returns the reference viscosity', eq_goal(fns['constant'](T1, P, eta0), eta0), pos, replay=lambda md: (True, 'constant law wrong'), key='visc:constant')))
+                                        replay=replay.fn_replay(mod, 'reference', [('T_ref', 1500.), ('P', 1e9), ('eta_ref', 1e20), ('T_ref', 1500.), ('E', 3e5), ('V', 1e-6)], lambda val, a: abs(val - a[2]) > 1e-9 * a[2], 'reference law at T_ref'), key='visc:reference:ref')))
+    results.append(discharge(Obligation('constant: returns the reference viscosity', eq_goal(fns['constant'](T1, P, eta0), eta0), pos, replay=replay.fn_replay(mod, 'constant', [('T1', 1400.), ('P', 1e9), ('eta_ref', 1e20)], lambda val, a: val != a[2], 'constant law'), key='visc:constant')))
     results.append(reach_twin('viscosity', pos))
     return {'results': results, 'encoded': loader.ENCODED, 'axioms': CTX.axiom_notes, 'label': 'viscosity'}
 
@@ -274,9 +282,9 @@ def job_melting():
     a_, b_, c_, d_ = [Q.sym(x) for x in ('sa', 'sb', 'sc', 'sd')]
     sv, sm = sp(f1, v['T'], v['etal'], v['mul'], a_, b_, c_, d_)
     results.append(discharge(Obligation('spohn: viscosity >= liquid viscosity and shear >= liquid shear', z3.And((sv >= v['etal']).c, (sm >= v['mul']).c), pos + [a_.re > 0, c_.re > 0],
-                                        replay=lambda md: (True, 'spohn below liquid values'), key='spohn:floor')))
+                                        replay=replay.fn_replay(mod, 'spohn', [('phi1', 0.2), ('T', 1700.), ('etal', 1.0), ('mul', 1e-5), ('sa', 1.0), ('sb', 1.0), ('sc', 1.0), ('sd', 1.0)], lambda val, a: val[0] < a[2] or val[1] < a[3], 'spohn floor'), key='spohn:floor')))
     ov, om = fns['off'](f1, v['eta0'], v['mu0'])
-    results.append(discharge(Obligation('off: returns the pre-melt values', z3.And(eq_goal(ov, v['eta0']), eq_goal(om, v['mu0'])), pos, replay=lambda md: (True, 'off changes values'), key='melt:off')))
+    results.append(discharge(Obligation('off: returns the pre-melt values', z3.And(eq_goal(ov, v['eta0']), eq_goal(om, v['mu0'])), pos, replay=replay.fn_replay(mod, 'off', [('phi1', 0.2), ('eta0', 1e20), ('mu0', 5e10)], lambda val, a: val[0] != a[1] or val[1] != a[2], 'melting off'), key='melt:off')))
     results.append(reach_twin('melting', pos + [(f2 > v['cm'] + v['cw']).c]))
     return {'results': results, 'encoded': loader.ENCODED, 'axioms': CTX.axiom_notes, 'label': 'melting'}
 
